@@ -136,7 +136,7 @@ ENGINE_TRUSTED = COMMON_TRUSTED + [
 ]
 
 PROPS["C02"] = {
-  "units": ["framebatch", "engine", "anon", "dealersend", "flags", "reqrep"],
+  "units": ["framebatch", "engine", "anon", "dealersend", "flags", "reqrep", "routerfrag"],
   "kani_quick": [], "kani_thorough": [],
   "claim": "Receiver side, proved unbounded on the verbatim code: ZmtpEngine::process_data delivers only complete messages (MORE on all but the last frame), and delivered frames + the message in progress equal, in order, "
            "the data frames the framer returned (nothing dropped, duplicated, reordered or merged across calls); a message of more than 255 frames closes the connection with PeerError instead of panicking and nothing truncated is delivered. "
@@ -147,7 +147,8 @@ PROPS["C02"] = {
            "and every FrameBatch::push is within the container's capacity (a message with too many frames is refused with an error, never a panic). "
            "Sender-side MORE normalisation (unit flags; the iter_mut().enumerate() loops desugared by R9e): PUSH / PUB send_multipart, DEALER prepare_full_multipart_send_sequence (manual and automatic framing) and the REP reply assembly put on the wire "
            "exactly the application's frames in order, payload untouched, MORE on all but the last; Socket::send_multipart refuses more than 255 frames with an error; DEALER / REP admission checks guarantee the capacity preconditions of the delimiter / envelope; "
-           "ROUTER prepends exactly one identity frame to a received message and refuses (ProtocolViolation) a message that leaves no room for it.",
+           "ROUTER prepends exactly one identity frame to a received message and refuses (ProtocolViolation) a message that leaves no room for it; "
+           "the detach of a pipe resets ROUTER's frame-by-frame send in progress only if that send is addressed to the detached connection (unit routerfrag).",
   "level_note": "Unit anon uses the sequential lock model for the frame cache (one task receives at a time) and an abstract ReadyPipeQueue (its pop order is a ghost sequence; cancel safety of pop() assumed); queued batches are assumed to be whole messages "
                 "(proved for tcp/ipc by the engine contract, assumed for inproc). DEALER/ROUTER frame_recv_buffer, ROUTER's frame-by-frame send state (current_send_target) and its send-side strategies, and socket-level interleaving with other peers are not covered. "
                 "FrameBatch::from(Vec) / with_capacity beyond 255 panic by design of the public API: derived preconditions, see DESIGN.md findings.",
